@@ -295,4 +295,87 @@ theorem writeFasta_text (sq : Sq) (hd : sq.digital = false) (ha : cstr sq.acc = 
   unfold writeFasta fastaText
   simp [hd, ha, hn, hds]
 
+
+/-! ## digital mode -/
+
+/-- the gap code `K` of the alphabet (written as `-`, which the FASTA reader does not accept as a residue) -/
+def gapCode (abc : Nat) : Nat := if abc = 3 then 20 else 4
+
+/-- what the writer prints for digital residues -/
+def textize (abc : Nat) (codes : List UInt8) : List UInt8 := codes.map (fun x => (abcSym abc).getD x.toNat 63)
+
+theorem dig_tables : ∀ abc ∈ [1, 2, 3], ∀ x : Fin 32, x.val < (abcSym abc).size → x.val ≠ gapCode abc →
+    isRes (inmapFasta abc) ((abcSym abc).getD x.val 63) = true ∧
+    (abcInmap abc).getD ((abcSym abc).getD x.val 63).toNat 0 = UInt8.ofNat x.val := by decide +kernel
+
+theorem dig_tables2 : ∀ abc ∈ [1, 2, 3], (abcSym abc).size ≤ 32 ∧ isEod (inmapFasta abc) chGt = true ∧ isData (inmapFasta abc) chNl = true ∧
+    isRes (inmapFasta abc) chNl = false ∧ isRes (inmapFasta abc) chCr = false := by decide +kernel
+
+/-- a residue code the writer turns into a residue symbol: inside the alphabet and not the gap -/
+def CodeOk (abc : Nat) (x : UInt8) : Prop := x.toNat < (abcSym abc).size ∧ x.toNat ≠ gapCode abc
+
+theorem textize_ok (abc : Nat) (habc : abc ∈ [1, 2, 3]) (codes : List UInt8) (h : ∀ x ∈ codes, CodeOk abc x) :
+    (∀ c ∈ textize abc codes, isRes (inmapFasta abc) c = true) ∧
+    (textize abc codes).map (fun c => (abcInmap abc).getD c.toNat 0) = codes := by
+  have h32 := (dig_tables2 abc habc).1
+  induction codes with
+  | nil => exact ⟨fun c hc => (by cases hc), rfl⟩
+  | cons x xs ih =>
+    obtain ⟨i1, i2⟩ := ih (fun y hy => h y (by simp [hy]))
+    obtain ⟨k1, k2⟩ := h x (by simp)
+    have hx32 : x.toNat < 32 := by omega
+    obtain ⟨t1, t2⟩ := dig_tables abc habc ⟨x.toNat, hx32⟩ k1 k2
+    simp only [UInt8.ofNat_toNat] at t2
+    refine ⟨?_, ?_⟩
+    · intro c hc
+      simp only [textize, List.map_cons, List.mem_cons] at hc
+      rcases hc with hc | hc
+      · rw [hc]; exact t1
+      · exact i1 c hc
+    · simp only [textize, List.map_cons] at i2 ⊢
+      rw [t2, i2]
+
+/-- **Digital mode: `specFasta abc (write rs) = rs`** (DNA / RNA / amino): records whose residues are codes of the alphabet other than the
+    gap are written as symbols (`textize`) and parsed back — by the reader in the same digital mode — into the same codes. -/
+theorem specFasta_allText_digital (abc : Nat) (habc : abc ∈ [1, 2, 3]) (rs : List (List UInt8 × List UInt8 × List UInt8))
+    (hn : ∀ r ∈ rs, r.1 ≠ [] ∧ (∀ c ∈ r.1, isSpace c = false) ∧ (∀ c ∈ r.2.1, pDesc c = true) ∧
+      (∀ c t, r.2.1 = c :: t → isBlankTab c = false) ∧ ∀ x ∈ r.2.2, CodeOk abc x) :
+    specFasta abc (allText (rs.map fun r => (r.1, r.2.1, textize abc r.2.2))) =
+      (expected (abcInmap abc) (allText (rs.map fun r => (r.1, r.2.1, textize abc r.2.2))).length
+         (rs.map fun r => (r.1, r.2.1, textize abc r.2.2)), .eof) ∧
+    (expected (abcInmap abc) (allText (rs.map fun r => (r.1, r.2.1, textize abc r.2.2))).length
+       (rs.map fun r => (r.1, r.2.1, textize abc r.2.2))).map (fun x => (x.name, x.desc, x.seq)) = rs := by
+  obtain ⟨_, t2, t3, t4, t5⟩ := dig_tables2 abc habc
+  have h0 : abc ≠ 0 := by intro k; subst k; simp at habc
+  have habc' : abc ∈ [0, 1, 2, 3] := by simp at habc ⊢; omega
+  have hg : ∀ r ∈ (rs.map fun r => (r.1, r.2.1, textize abc r.2.2)), Good (inmapFasta abc) r := by
+    intro r hr
+    obtain ⟨r0, hr0, rfl⟩ := List.mem_map.mp hr
+    obtain ⟨g1, g2, g3, g4, g5⟩ := hn r0 hr0
+    exact ⟨g1, g2, g3, g4, (textize_ok abc habc r0.2.2 g5).1⟩
+  refine ⟨?_, ?_⟩
+  · unfold specFasta
+    simp only [h0, if_false]
+    refine specAll_allText (inmapFasta abc) (abcInmap abc) _ (ParseFasta.eodGt_fasta abc habc') t2 t3 t4 t5 _ _ ?_ hg
+    have : ∀ (l : List (List UInt8 × List UInt8 × List UInt8)), l.length ≤ (allText l).length := by
+      intro l
+      induction l with
+      | nil => simp [allText]
+      | cons r l ih => simp only [allText, fastaText, List.length_append, List.length_cons, List.length_nil]; omega
+    have := this (rs.map fun r => (r.1, r.2.1, textize abc r.2.2))
+    omega
+  · clear hg
+    generalize (allText (rs.map fun r => (r.1, r.2.1, textize abc r.2.2))).length = N
+    induction rs with
+    | nil => rfl
+    | cons r rs ih =>
+      obtain ⟨_, _, _, _, g5⟩ := hn r (by simp)
+      simp only [List.map_cons, expected, ih (fun r' hr' => hn r' (by simp [hr'])), (textize_ok abc habc r.2.2 g5).2]
+
+/-- the bytes `esl_sqascii_WriteFasta` writes for a digital record without accession whose strings hold no NUL -/
+theorem writeFasta_digital (sq : Sq) (hd : sq.digital = true) (ha : cstr sq.acc = #[]) (hn : cstr sq.name = sq.name) (hds : cstr sq.desc = sq.desc) :
+    writeFasta sq = fastaText sq.name.toList sq.desc.toList (textize sq.abc sq.seq.toList) := by
+  unfold writeFasta fastaText textize
+  simp [hd, ha, hn, hds]
+
 end EaselModel.Sqio.RoundTrip
